@@ -4,7 +4,7 @@ the Runner model on the projection proj_C01; the property oracle (harness/oracle
 import runner_common as rc
 
 LEVEL = "proof"
-OPTS = {}
+OPTS = {"p_cap_mix": 0.35}
 
 
 def run(chk):
